@@ -806,12 +806,12 @@ pub fn run(cfg: &RunCfg) -> Report {
     // committed fuzz corpus and crash artifacts are replayed through the same entry points
     replay_corpus(&mut rep, cfg);
     for (t, name, q, th) in [
-        (Target::H1Server, "h1-server", 20_000u64, 400_000u64),
-        (Target::WsStream, "ws-stream", 60_000, 1_200_000),
-        (Target::Multipart, "multipart", 40_000, 800_000),
-        (Target::TypedHeaders, "typed-headers", 60_000, 1_200_000),
-        (Target::UriPath, "uri-path", 60_000, 1_200_000),
-        (Target::ClientResponse, "client-response", 20_000, 400_000),
+        (Target::H1Server, "h1-server", 200_000u64, 2_000_000u64),
+        (Target::WsStream, "ws-stream", 800_000, 8_000_000),
+        (Target::Multipart, "multipart", 600_000, 6_000_000),
+        (Target::TypedHeaders, "typed-headers", 1_000_000, 10_000_000),
+        (Target::UriPath, "uri-path", 800_000, 8_000_000),
+        (Target::ClientResponse, "client-response", 200_000, 2_000_000),
     ] {
         explore(&mut rep, cfg, name, cfg.cases(q, th), move || case_strategy(t), |c| run_case(cfg, c));
     }
